@@ -3,6 +3,7 @@ package main
 import (
 	"fmt"
 	"regexp"
+	"sort"
 	"strconv"
 	"strings"
 )
@@ -57,7 +58,14 @@ func (pcr *PreConfigRoute) FindRoute(dest string) (protocol string, host string,
 	if item, ok := pcr.items[dest]; ok {
 		return item.protocol, item.host, item.port, nil
 	}
-	for _, item := range pcr.items {
+	// scan the wildcard patterns in a fixed order so that the same host always gets the same answer
+	patterns := make([]string, 0, len(pcr.items))
+	for pattern := range pcr.items {
+		patterns = append(patterns, pattern)
+	}
+	sort.Strings(patterns)
+	for _, pattern := range patterns {
+		item := pcr.items[pattern]
 		matched, err := regexp.MatchString(pcr.toRegularExp(item.dest), dest)
 		if matched && err == nil {
 			return item.protocol, item.host, item.port, nil
